@@ -32,8 +32,10 @@ CHECKS = {
         "and, for the double-precision run, within its measured rounding "
         "error; exact solver checked against an independent transcription "
         "of Toro's pressure function and the vacuum criterion."),
-  note=("Pure-Python solver functions (the transpiled C twins are not "
-        "executed here); Python-only exceptions on failure paths count as "
+  note=("Every case also goes through the transpiled solvers (a probe "
+        "equation calling riemann_solve with HELPERS, as GSPH does) and is "
+        "compared with the Python run; Python-only exceptions on failure "
+        "paths count as "
         "'failure reported'; van_leer's absolute 1e-25 pressure clamp is "
         "kept away from the scaling clause."),
   technique="property-based testing (Hypothesis) with metamorphic relations and high-precision re-execution as oracle"),
@@ -246,14 +248,19 @@ CHECKS = {
         "thread count."),
   technique="property-based testing (Hypothesis) against a brute-force oracle, per-case process isolation, known-finding exclusion by construction"),
  'C05': dict(
-  text=("Three small Applications (free-surface drop, fluid column on a "
-        "solid floor with two arrays, doubly periodic TVF box) are run "
+  text=("Seven small Applications (free-surface drop in 2-D and 3-D, fluid "
+        "column on a solid floor, doubly periodic TVF box, gas dynamics with "
+        "evolving h, periodic channel with walls, pipe with inlet/outlet) "
+        "with drawn problem options (scheme variants, adaptive dt, pfreq "
+        "with all dumps compared, permuted gids, passive properties) are run "
         "through Application.run(argv) in subprocesses for drawn sets of "
-        "configurations from --nnps (10) x --cache-nnps x --openmp with "
-        "1..16 threads x --reorder-freq x --sort-gids; metamorphic oracle: "
+        "configurations from --nnps (10, with tuning options) x --cache-nnps "
+        "x --openmp with 1..16 threads and schedules x --reorder-freq x "
+        "--sort-gids x --fixed-h; metamorphic oracle: "
         "agreement with the reference configuration per particle (by gid) "
-        "to 1e-9*scale, bit-identity among sorted+OpenMP runs with the same "
-        "reorder frequency, bit-reproducibility of a repeated run."),
+        "to 1e-9*scale, bit-identity among sorted runs (OpenMP and serial "
+        "groups) with the same reorder frequency, bit-reproducibility of a "
+        "repeated run."),
   note=("OpenMP interleavings are sampled, not controlled; neighbour "
         "algorithms without spatial ordering reject --reorder-freq with "
         "NotImplementedError (accepted); strat_sfc on multi-array problems "
